@@ -93,6 +93,7 @@ type loopInfo struct {
 	ord    int
 	backs  []*ssa.BasicBlock
 	frameComps map[string]bool
+	variantHead []string // value of each loop variant at the loop head (arbitrary iteration)
 }
 
 func (x *Exec) safe() bool { return true }
@@ -454,6 +455,16 @@ func (x *Exec) enterLoop(li *loopInfo, ins []edgeIn) *State {
 		t := env.evalBool(cl.Expr)
 		vc.assert(implies(st.reach, t))
 	}
+	// 5. loop variants: their value at the head of an arbitrary iteration
+	li.variantHead = nil
+	if x.con != nil {
+		for _, cl := range x.con.Variants[li.ord] {
+			env := x.newEnv(st, x.oldOf(st))
+			env.atHeader = b
+			v := env.eval(cl.Expr)
+			li.variantHead = append(li.variantHead, vc.name(fmt.Sprintf("variant%d", li.ord), sInt, v.t))
+		}
+	}
 	return st
 }
 
@@ -638,6 +649,17 @@ func (x *Exec) checkBackEdge(li *loopInfo, from *ssa.BasicBlock, st *State, cond
 		env.atHeader = li.header
 		t := env.evalBool(cl.Expr)
 		x.obligeClause("inv-preserve", fmt.Sprintf("loop%d/%s", li.ord, clauseLabel(cl)), cond, t, cl)
+	}
+	if x.con != nil && x.discovery == 0 {
+		for i, cl := range x.con.Variants[li.ord] {
+			if i >= len(li.variantHead) {
+				break
+			}
+			env := x.newEnv(s2, x.oldOf(s2))
+			env.atHeader = li.header
+			v := env.eval(cl.Expr)
+			x.obligeClause("variant", fmt.Sprintf("loop%d/%s", li.ord, clauseLabel(cl)), cond, and(app("<=", "0", li.variantHead[i]), app("<", v.t, li.variantHead[i])), cl)
+		}
 	}
 	if x.depth == 0 && li.frameComps != nil && x.discovery == 0 {
 		if goals, ok := x.frameGoals(s2, li.frameComps); ok {
